@@ -925,11 +925,22 @@ class EnumConverter(Converter[enum.Enum]):
         vs = list_phrase(tuple(map(str, self.member_vals)))
         return f"{pluralize('member', plural)} of enum '{self.ty.__name__}' ({vs})"
 
+    def _member(self, val: t.Any) -> enum.Enum:
+        """
+        Member with the (converted) value `val`. In an enum with values of several types, a value is
+        matched by a member value of the same type only (`1.0` is not the member valued `1`).
+        Raises `KeyError` otherwise.
+        """
+        member = self.val_map[val]
+        if type(member.value) is not type(val):
+            raise KeyError(val)
+        return member
+
     def try_convert(self, val: t.Any) -> enum.Enum:
         """See [`Converter.try_convert`][pane.converters.Converter.try_convert]"""
         val = self.inner_conv.try_convert(val)
         try:
-            return self.val_map[val]
+            return self._member(val)
         except (KeyError, TypeError):
             # TypeError: an unhashable converted value (e.g. a tuple holding a list) is not a member either
             raise ParseInterrupt()
@@ -941,7 +952,7 @@ class EnumConverter(Converter[enum.Enum]):
         except ParseInterrupt:
             return self.inner_conv.collect_errors(val)
         try:
-            self.val_map[conv_val]
+            self._member(conv_val)
             return None
         except (KeyError, TypeError):
             return WrongTypeError(self.expected(), val)
